@@ -159,12 +159,25 @@ def audit_axioms(imports, theorems):
     return res, out
 
 
-def replay(log_paths, layers):
-    """Feed harness logs to the Lean driver; returns (summary dict, rejects list, coverage dict)."""
+def replay(log_paths, layers, block_layers=None):
+    """Feed harness logs to the Lean driver; returns (summary dict, rejects list, coverage dict).
+    block_layers: optional {block number: [layers]} — executions of those blocks are replayed through
+    the given acceptors instead of `layers` (a `# layers …` line is inserted after their `# begin`)."""
     exe = os.path.join(LEAN, ".lake", "build", "bin", "replay")
-    cat = subprocess.Popen(["cat"] + log_paths, stdout=subprocess.PIPE)
+    if block_layers:
+        mp = os.path.join(CACHE, "blockmap_%d.txt" % os.getpid())
+        with open(mp, "w") as f:
+            for b, ls in block_layers.items():
+                f.write("%d %s\n" % (b, " ".join(ls)))
+        prog = 'NR==FNR{k=$1; $1=""; m[k]=substr($0,2); next} {print} /^# begin block=/{b=$3; sub("block=","",b); if (b in m) print "# layers " m[b]}'
+        cat = subprocess.Popen(["awk", prog, mp] + log_paths, stdout=subprocess.PIPE)
+    else:
+        cat = subprocess.Popen(["cat"] + log_paths, stdout=subprocess.PIPE)
     r = subprocess.run([exe] + layers, stdin=cat.stdout, capture_output=True, text=True)
     cat.wait()
+    if block_layers:
+        try: os.unlink(mp)
+        except OSError: pass
     rejects, cov, summary = [], {}, {}
     for line in r.stdout.splitlines():
         if line.startswith("REJECT") or line.startswith("ORACLE"):
